@@ -1167,6 +1167,11 @@ def _check_enums(prog: Program, res: Result, wfi, lfi):
                     c = attr_chain(k) if isinstance(k, ast.Attribute) else None
                     if c and c.startswith(enum + "."):
                         out.add(c.split(".")[1])
+            # the same map after the load-time expansion of `x = TABLE.get(k)` into `if k == E.A: x = .. elif ..`
+            if isinstance(n, ast.Compare) and len(n.ops) == 1 and isinstance(n.ops[0], ast.Eq):
+                c = attr_chain(n.comparators[0]) if isinstance(n.comparators[0], ast.Attribute) else None
+                if c and c.startswith(enum + ".") and (c.count(".") == 1 or c.endswith((".name", ".value"))):
+                    out.add(c.split(".")[1])
         return out
 
     def expect(rule_desc, members, got, where_fi, enum):
